@@ -48,7 +48,7 @@ def bytes_to_le_rules(F, rep, P):
             rep.bad(P + ".endian", "anchor:%s::bytes_to_le" % end, "", "not found")
             continue
         b = bs[0]
-        names = [strip_generics(callee_name(t)).rsplit("::", 1)[-1] for _, t in b.calls()]
+        names = [strip_generics(nm).rsplit("::", 1)[-1] for nm in callees_in_blocks(F, b, range(len(b.blocks)))]
         if want == "noop":
             good = not names
         else:
@@ -148,15 +148,22 @@ def run(ctx, rep):
         for bi, t in calls:
             n += 1
             f = pf.get(bi, TOP)
-            if kind == "empty":
-                good = fact_match(f, "call-true", r"VecDeque::is_empty$")
-            elif kind == "pop":
-                good = fact_match(f, "is", "^None$", "pop_front")
-            else:
-                good = fact_match(f, "cmp", "^Le$", "pcm_frames", "consumed")
+            # any of the three ways the front-ends know their buffer is drained
+            good = fact_match(f, "call-true", r"VecDeque::is_empty$") or fact_match(f, "is", "^None$", "pop_front") or fact_match(f, "cmp", "^Le$", "pcm_frames", "consumed")
             rep.check("C07.refill", "%s decodes a new frame only when its buffer is exhausted" % strip_generics(path), good, loc_of(b, t), "",
                       "read_frame is called while buffered data may remain (it would be overwritten / skipped); facts: %s" % fact_str(f))
-        rep.check("C07.refill", "%s has exactly one refill site" % strip_generics(path), len(calls) + len(in_closure) == 1, loc_of(b))
+        delegated = False
+        if not calls and not in_closure:
+            # a front-end built on a sibling front-end (read = fill_buf + copy + consume): the sibling is checked in its own row
+            sib = [t for _, t in b.calls() if any(strip_generics(callee_name(t)) == p2 or callee_name(t) == p2 for p2, _ in FRONTS if p2 != path)]
+            delegated = len(sib) == 1
+            if delegated:
+                n += 1
+                cons = [t for _, t in b.calls() if re.search(r"::consume$", callee_name(t))]
+                rep.check("C07.refill", "%s refills through %s and consumes what it copied" % (strip_generics(path), strip_generics(callee_name(sib[0]))), len(cons) == 1, loc_of(b, sib[0]))
+        rep.check("C07.refill", "%s has exactly one refill site" % strip_generics(path), len(calls) + len(in_closure) == 1 or delegated, loc_of(b))
+        if delegated:
+            continue
         # ---- C07.fill
         if "FlacByteReader" in path:
             tb = [t for _, t in b.calls() if strip_generics(callee_name(t)) == "audio::Frame::to_buf"]
@@ -255,7 +262,7 @@ def run(ctx, rep):
         si, st = sw[0]
         for val, tb in st["v"]:
             reg = blocks_only_via(b, si, tb)
-            got = sorted({re.search(conv, callee_name(t)).group(1) for i, t in b.calls() if i in reg and re.search(conv, callee_name(t))})
+            got = sorted({re.search(conv, nm).group(1) for nm in callees_in_blocks(F, b, reg) if re.search(conv, nm)})
             rep.check("C07.endian", "%s: %d-byte samples use the i%d converter" % (fn, val, 8 * val), got == [str(8 * val)], loc_of(b), str(got), "%d-byte samples are converted with i%s" % (val, got))
         rep.floor("C07.endian", "%s widths" % fn, len(st["v"]), 4)
         if fn.endswith("fill_from_buf"):
